@@ -97,6 +97,11 @@ def scenarios():
         SC("same-keep-cold-store+transient-failure@%d" % kf, [], [scen.act_with_fault(k("/c7/x", "s_text"), kf), k("/c7/x", "s_text")], [[T], [T]], {("/c7/x", "data"): [T]},
            [(k("/c7/x", "s_text"), [T]), (ld("/c7/x"), [T])], may_fail=(0,)) for kf in range(1, 34)
     ] + [
+        # a kept function that loads a path, evaluated while another process re-keeps that path with other code: whatever the
+        # order, a later evaluation of the reader (after the path went back to the first code) returns what plain execution returns
+        SC("reader-keep-vs-rekeep-of-its-input", [k("/c7/p", "s_text")], [k("/c7/r", "s_reader"), k("/c7/p", "s_text_v2")], [[("reader", T), ("reader", T2)], [T2]],
+           {("/c7/p", "data"): [T2], ("/c7/r", "data"): [("reader", T), ("reader", T2)]}, [(k("/c7/p", "s_text"), [T]), (k("/c7/r", "s_reader"), [("reader", T)]), (k("/c7/p", "s_text_v2"), [T2]), (k("/c7/r", "s_reader"), [("reader", T2)])]),
+    ] + [
         # both processes register the same user file codec for dict results before they keep; one of them is a session that
         # had kept a dict result before registering it: blob and metadata written by the two must still belong together
         SC("same-keep-user-codec-registered-late-in-one-process", [], [scen.act_keep_user_codec("/c7/u", "s_dict", earlier="s_dict_earlier"), scen.act_keep_user_codec("/c7/u", "s_dict")], [[E["s_dict"]], [E["s_dict"]]], {},
